@@ -286,7 +286,7 @@ fn exec_json() {
 fn classify_in_child(scenario: &str, case: &Value) -> Vec<(String, String, String)> {
     let exe = std::env::current_exe().unwrap();
     let input = json!({"scenario": scenario, "case": case}).to_string();
-    let (status, stdout) = runner::run_child_with_stdin(&exe, &["exec-json".to_string()], &input, &[]);
+    let (status, stdout) = runner::run_child_with_stdin(&exe, &["exec-json".to_string()], &input, &determinism::worker_env());
     if status != "ok" {
         if status.contains("exit status: 2") {
             simcore::harness_error("exec-json child reported a harness error");
